@@ -29,9 +29,9 @@ type depRepo struct {
 	tags []string
 }
 
-var tagPool = []string{"v1.0.0", "v1.2.0", "v1.10.0", "v2.0.0", "v2.1.0-rc.1", "v0.9.0", "latest", "main"}
+var tagPool = []string{"v1.0.0", "v1.2.0", "v1.10.0", "v2.0.0", "v2.1.0-rc.1", "v0.9.0", "latest", "main", "v1.5.0-rc.1", "v1.1.0"}
 
-var constraintPool = []string{">=v1.0.0", "v1.2.0", "<v2.0.0", ">=v1.0.0, <v2.0.0", ">=v9.0.0", "~1.2", "not-a-constraint", ">=v0.9.0", "<=v1.10.0"}
+var constraintPool = []string{">=v1.0.0", "v1.2.0", "<v2.0.0", ">=v1.0.0, <v2.0.0", ">=v9.0.0", "~1.2", "not-a-constraint", ">=v0.9.0", "<=v1.10.0", ">=v1.0.0, !=v1.2.0", "<v1.1.0 || >=v1.10.0"}
 
 var boundPool = []string{">=v1.0.0", "<v2.0.0", ">=v1.0.0, <v2.0.0", ">=v0.9.0", "<=v1.10.0", ">=v1.2.0", "<v1.10.0", ">=v1.10.0", "<=v1.2.0"}
 
